@@ -44,6 +44,10 @@ def leaf_inputs(ctx, leaf, n, dia):
         return {"$symfloat": SymStr([ctx.fresh_char("d%d" % i, ((48, 57),)) if ch == "d" else
                                      (ctx.fresh_char("s%d" % i, ((43, 43), (45, 45))) if ch == "s" else ch)
                                      for i, ch in enumerate(leaf[5:])])}
+    if leaf.startswith("kw:"):
+        # a string spelling a keyword of some dialect, every letter in either case
+        return SymStr([ctx.fresh_char("k%d" % i, ((ord(ch.upper()), ord(ch.upper())), (ord(ch.lower()), ord(ch.lower()))))
+                       if ch.isalpha() else ch for i, ch in enumerate(leaf[3:])])
     if leaf.startswith("shape:"):
         # a string leaf of a fixed shape: d = any ASCII digit, other characters literal
         return SymStr([ctx.fresh_char("d%d" % i, ((48, 57),)) if ch == "d" else ch for i, ch in enumerate(leaf[6:])])
